@@ -109,6 +109,8 @@ def known_match(known, prop_id, signature):
 # ----------------------------------------------------------------------------- replay
 def write_replay(prop_id, trace, verdict):
     d = os.path.join(VERIF, "replays", prop_id)
+    if evidence_dir() != os.path.join(VERIF, "evidence"):
+        d = os.path.join("/tmp", "hexsim-scratch-replays", prop_id)
     os.makedirs(d, exist_ok=True)
     path = os.path.join(d, f"{trace.get('seed', 0)}.json")
     rec = dict(trace)
@@ -349,8 +351,17 @@ def _handle_violation(prop, base_seed, rec, known, agg):
 
 
 # ----------------------------------------------------------------------------- evidence
+def evidence_dir():
+    """Evidence is only written under /verif/evidence when the check ran against /repo itself; runs
+    against scratch trees (mutants, seeded changes, older commits) write to a scratch directory."""
+    repo = os.path.realpath(os.environ.get("HEXSIM_REPO", "/repo"))
+    if repo == os.path.realpath("/repo"):
+        return os.path.join(VERIF, "evidence")
+    return os.path.join("/tmp", "hexsim-scratch-evidence")
+
+
 def write_evidence(prop, tier, base_seed, agg, wall, code, vio_info, jobs):
-    os.makedirs(os.path.join(VERIF, "evidence"), exist_ok=True)
+    os.makedirs(evidence_dir(), exist_ok=True)
     samples = []
     for key, val in agg["samples"].items():
         idx = val[1] if isinstance(val, tuple) else val
@@ -404,7 +415,7 @@ def write_evidence(prop, tier, base_seed, agg, wall, code, vio_info, jobs):
         "wall_s": round(wall, 3),
         "violations": 1 if code == EXIT_VIOLATION else 0,
     }
-    path = os.path.join(VERIF, "evidence", f"{prop.ID}.json")
+    path = os.path.join(evidence_dir(), f"{prop.ID}.json")
     tmp = path + ".tmp"
     with open(tmp, "w") as fh:
         json.dump(jsonable(ev), fh, indent=1)
